@@ -5,6 +5,7 @@ import (
 	"fmt"
 
 	"github.com/jrhy/mast"
+	"verif/harness/env"
 )
 
 // Events counts what a history actually did.
@@ -19,6 +20,7 @@ type Events struct {
 	HeightDrops                              int // deletes after which the height was lower
 	MergingDeletes                           int // deletes of a key of layer>=1 in a tree of height>=1
 	PersistHeights                           []uint8
+	FailedPersists                           int
 }
 
 // Machine interprets programs over version slots.
@@ -267,14 +269,29 @@ func (m *Machine) Step(op Op) error {
 		}
 		m.Slots[di] = c
 		readOnly = true
-	case OpPersist:
+	case OpPersist, OpPersistFail:
 		if t.InMemory {
 			return ErrSkipped
 		}
 		if m.BeforePersist != nil {
 			m.BeforePersist(si, t)
 		}
+		if op.Kind == OpPersistFail {
+			_, base := w.Store.Counters()
+			nth := op.N
+			if nth < 1 {
+				nth = 1
+			}
+			w.Store.FailStore = func(i int, name string) bool { return i == base+nth }
+		}
 		sr, err := w.Persist(t)
+		w.Store.FailStore = nil
+		if err != nil && op.Kind == OpPersistFail && errors.Is(err, env.ErrInjected) {
+			// the injected write failure surfaced: the tree must stay what it was (checked by the caller's invariants)
+			m.Ev.FailedPersists++
+			readOnly = true
+			break
+		}
 		if err != nil {
 			return err
 		}
